@@ -108,7 +108,9 @@ Definition fp_encode_simd (W : Z) (strict : bool) (L : Z) : list access :=
       if i <? L then flat_map (fun j => [rd B_SRC j 1 1; wr B_DST j 1 1]) (zrange i L) else []).
 
 Definition fp_encode_into_avx2 (L : Z) : list access := fp_encode_simd 32 false L.
-Definition fp_encode_into_sse2 (L : Z) : list access := fp_encode_simd 16 true L.
+(* SSE2 tests the error flag through memory: `let mut x: [u8; 16] = [0; 16];
+   _mm_storeu_si128(x.as_mut_ptr() as *mut __m128i, error)` (sse2.rs l.87-88) *)
+Definition fp_encode_into_sse2 (L : Z) : list access := fp_encode_simd 16 true L ++ [wr B_LOC 0 16 1].
 (* default `Encode::encode_into`: `for (i, c) in seq.iter().enumerate() { dst[i] = from_ascii( *c)? }` *)
 Definition fp_encode_generic (L : Z) : list access :=
   flat_map (fun j => [rd B_SRC j 1 1; wr B_DST j 1 1]) (zrange 0 L).
@@ -122,7 +124,7 @@ Definition wrap_encode (kern : Z -> list access) (L Ld : Z) : res kernel_run :=
 Definition wrap_encode_raw (kern : Z -> list access) (L : Z) : res kernel_run := wrap_encode kern L L.
 
 Definition ext_encode (L Ld : Z) (b : nat) : Z :=
-  if Nat.eqb b B_SRC then L else if Nat.eqb b B_DST then Ld else 0.
+  if Nat.eqb b B_SRC then L else if Nat.eqb b B_DST then Ld else if Nat.eqb b B_LOC then 16 else 0.
 
 (* =====================================================================
    stripe_avx2   (avx2.rs l.546-786)
